@@ -86,7 +86,12 @@ def cases(draw, tier):
     kind = draw(st.sampled_from(['ignore', 'ignore', 'delete-unrelated']))
     boost = draw(st.booleans())
     if kind == 'ignore':
-        path, cls = draw(st.sampled_from(_classes(m)))
+        cs = _classes(m)
+        # a class whose unqualified name another class shares is the interesting one to ignore
+        twins = [(p, c) for p, c in cs if any(c2.name.lower() == c.name.lower() and c2 is not c
+                                              for _, c2 in M.iter_items(m)
+                                              if isinstance(c2, M.Class))]
+        path, cls = draw(st.sampled_from(twins if twins and draw(st.booleans()) else cs))
         return {'m': m, 'kind': kind, 'path': list(path), 'name': cls.name, 'boost': boost}
     cands = _unrelated(m)
     if not cands:
